@@ -187,6 +187,11 @@ def run(ck, facts, tier):
                          "(is the value occurs-checked and universe-checked?)")
 
     occurs_before_bind(ck, facts, "C14.OCCURS")
+    # a unification that fails part-way must leave nothing behind, or the next unification on the same table answers for a
+    # different problem: the snapshot / rollback pairing of InferenceTable::relate (C15) is evaluated here as well
+    from kit import Forward
+    import props.c15 as _c15
+    _c15.run(Forward(ck, "C15.PAIRING", "C14.FAILED-ATTEMPT-UNDONE"), facts, tier)
     generalize_before_bind(ck, facts, "C14.GENERALIZE")
 
     R = "C14.PROMOTE"
